@@ -1,4 +1,6 @@
 import RsslVerif.Lemmas.SourceMap
+import RsslVerif.Spec.SourceMap
+import RsslVerif.Lemmas.Trivia
 /-!
 # C14 — layout trivia never changes results and diagnostics track source positions
 
@@ -7,7 +9,7 @@ Part 1 (this section): positions.  Theorems about `Model.SourceMap` — the mode
 insertion points, all inserted texts and all file lists.
 -/
 namespace RsslVerif.Thm.C14
-open RsslVerif.Gen.SourceMapTables RsslVerif.Model.SourceMap RsslVerif.Lemmas.SourceMap
+open RsslVerif.Gen.SourceMapTables RsslVerif.Model.SourceMap RsslVerif.Lemmas.SourceMap RsslVerif.Spec.SourceMap
 
 /-- Tie to the source: the constants and format pieces the model is written against are the ones
     `location.rs`, `errors.rs`, `tokens.rs` and `prepare_tokens` contain today. -/
@@ -57,6 +59,14 @@ theorem line_shift (s ins : Bytes) (p q k : Nat) (hpq : p ≤ q) (hq : q ≤ s.l
       simp [h1, h2, h3, h4]
       omega
   rw [hl, hk]
+
+/-- non-vacuity: `"ab\ncd"`, two lines (`"//\n\n"`) inserted at the start of line 2: `d` moves from 2:2 to 4:2 -/
+example :
+    let s : Bytes := [97, 98, 10, 99, 100]
+    let ins : Bytes := [47, 47, 10, 10]
+    (lineCol s 3).col = firstColumn ∧ NlTerminated ins ∧ nlCount ins = 2 ∧
+    lineCol s 4 = ⟨2, 2⟩ ∧ lineCol (insertAt s 3 ins) (4 + ins.length) = ⟨4, 2⟩ :=
+  ⟨by decide, Or.inr ⟨[47, 47, 10], 10, rfl, by decide⟩, by decide, by decide, by decide⟩
 
 /-- positions before the inserted lines do not move at all -/
 theorem line_shift_before (s ins : Bytes) (p q : Nat) (hqp : q ≤ p) (hp : p ≤ s.length) :
@@ -255,5 +265,344 @@ theorem earlier_files_unaffected (pre rest rest' : SourceManager) (loc : Nat) (h
     · simp [getFileLocation, hlt]
     · simp only [List.cons_append, getFileLocation, hlt, if_false]
       exact ih _ (by simp only [totalSlots] at h; omega)
+
+/-! ## the printed diagnostic -/
+
+theorem isNl_iff (c : UInt8) : (!isNl c) = (c != 10) := by
+  have h : (c.toNat == 10) = (c == 10) := by
+    cases hc : (c == 10)
+    · have : c ≠ 10 := by simpa using hc
+      have : c.toNat ≠ 10 := fun h => this (UInt8.toNat_inj.1 (by simpa using h))
+      simpa using this
+    · have : c = 10 := by simpa using hc
+      subst this; rfl
+  unfold isNl
+  rw [show newlineByte = 10 from rfl, h]
+  cases hc : (c == 10) <;> simp [bne, hc]
+
+/-- the model's source line is the reference "line around the offset" -/
+theorem sourceLine_eq_lineAround (s : Bytes) (q : Nat) : sourceLine s q = lineAround s q := by
+  unfold sourceLine lineAround lastLine
+  have : (fun c => !isNl c) = (fun c : UInt8 => c != 10) := funext isNl_iff
+  rw [this]
+
+theorem getD_append_cons (pre post : SourceManager) (f d : SourceFile) :
+    (pre ++ f :: post).getD pre.length d = f := by
+  simp [List.getD]
+
+/-- `write_message` for a position inside a loaded file prints the reference rendering of
+    (file name, line, column, severity, message, source line) — or panics off a character boundary. -/
+theorem writeMessage_located (pre post : SourceManager) (f : SourceFile) (q : Nat) (msg : Bytes) (sev : Severity)
+    (hq : q ≤ f.contents.length) (hknown : totalSlots pre + q ≠ unknownRaw) :
+    writeMessage (pre ++ f :: post) msg (totalSlots pre + q) sev =
+      if isCharBoundary f.contents q then
+        .ok (renderLocated f.name (lineCol f.contents q).line (lineCol f.contents q).col sev msg
+          (lineAround f.contents q))
+      else .error "panic: byte index is not a char boundary" := by
+  obtain ⟨h1, h2⟩ := include_location pre post f q hq
+  unfold writeMessage writeSourceForError
+  simp only [hknown, ne_eq, not_false_eq_true, if_true, h1, h2, getD_append_cons]
+  by_cases hb : isCharBoundary f.contents q
+  · simp [hb, renderLocated, FileLocation.render, caretLine, sourceLine_eq_lineAround,
+      show locSep = ":" from rfl, show headSep = ": " from rfl, show caretText = "^" from rfl]
+  · simp [hb]
+
+/-- a message without a position is `severity: message` -/
+theorem writeMessage_unlocated (sm : SourceManager) (msg : Bytes) (sev : Severity) :
+    writeMessage sm msg unknownRaw sev = .ok (strBytes sev.text ++ strBytes ": " ++ msg ++ [nl]) := by
+  simp [writeMessage, show headSep = ": " from rfl]
+
+/-- **message_render_shift.** `k` whole lines are inserted at the line start `p` of the loaded file `f`.
+    The diagnostic printed for a position `q ≥ p` of `f` before the edit, and the diagnostic printed for
+    the moved position after the edit, are the reference rendering of the *same* file name, column,
+    severity, message and source-line text, with `line` and `line + k` — they differ in the line number
+    and in nothing else.  (Both positions are character boundaries: otherwise the printer panics.) -/
+theorem message_render_shift (pre post : SourceManager) (f : SourceFile) (ins msg : Bytes) (sev : Severity)
+    (p q k : Nat) (hpq : p ≤ q) (hq : q ≤ f.contents.length)
+    (hstart : (lineCol f.contents p).col = firstColumn) (hins : NlTerminated ins) (hk : nlCount ins = k)
+    (hknown : totalSlots pre + q ≠ unknownRaw) (hknown' : totalSlots pre + (q + ins.length) ≠ unknownRaw)
+    (hb : isCharBoundary f.contents q = true)
+    (hb' : isCharBoundary (insertAt f.contents p ins) (q + ins.length) = true) :
+    ∃ name line col src,
+      writeMessage (pre ++ f :: post) msg (totalSlots pre + q) sev =
+        .ok (renderLocated name line col sev msg src) ∧
+      writeMessage (pre ++ { f with contents := insertAt f.contents p ins } :: post) msg
+          (totalSlots pre + (q + ins.length)) sev =
+        .ok (renderLocated name (line + k) col sev msg src) := by
+  refine ⟨f.name, (lineCol f.contents q).line, (lineCol f.contents q).col, lineAround f.contents q, ?_, ?_⟩
+  · rw [writeMessage_located pre post f q msg sev hq hknown, hb]; rfl
+  · have hq' : q + ins.length ≤ (insertAt f.contents p ins).length := by rw [length_insertAt]; omega
+    rw [writeMessage_located pre post { f with contents := insertAt f.contents p ins } (q + ins.length) msg sev hq' hknown']
+    simp only [hb', if_true, line_shift f.contents ins p q k hpq hq hstart hins hk]
+    rw [← sourceLine_eq_lineAround, ← sourceLine_eq_lineAround, sourceLine_insert_lines f.contents ins p q hpq hq hstart hins]
+
+/-- the moved position is a character boundary whenever the old one was (except at the very start of
+    the file, where Rust's `is_char_boundary(0)` is true for any contents) -/
+theorem boundary_preserved (s ins : Bytes) (p q : Nat) (hpq : p ≤ q) (hq : q ≤ s.length) (hq0 : 0 < q)
+    (hb : isCharBoundary s q = true) : isCharBoundary (insertAt s p ins) (q + ins.length) = true := by
+  unfold isCharBoundary at hb ⊢
+  have hq0' : (q == 0) = false := by simp; omega
+  have hq1 : (q + ins.length == 0) = false := by simp; omega
+  rw [length_insertAt]
+  simp only [hq0', hq1, Bool.false_or] at hb ⊢
+  have hget : (insertAt s p ins)[q + ins.length]? = s[q]? := by
+    have := congrArg (fun l => l[0]?) (drop_insertAt_after s ins p q hpq hq)
+    simpa [List.getElem?_drop] using this
+  rw [hget]
+  have : (q + ins.length == s.length + ins.length) = (q == s.length) := by
+    cases h : (q == s.length) <;> simp at h ⊢ <;> omega
+  rw [this]
+  exact hb
+
+/-!
+# Part 2: trivia insensitivity of `read_to_end` + `prepare_tokens`, over an abstract lexer
+
+What must be proved about the concrete lexer (C10's `token_intermediate` model), for each trivia text
+`w` and each token kind `t` after which insertion is allowed:
+
+* `LexesAs L w ws` with every token of `ws` whitespace — (T) the trivia lexes as trivia whatever follows;
+* `AdjacentStable L w t` — (A) the token is closed under following trivia;
+* `DistantStable L w` — (D) a token does not depend on text at or beyond the end of the next token,
+  as far as inserting `w` there is concerned.
+
+`<` and `>` fail (A) (their `FollowedBy` flag looks at the next token), a line comment fails (A) (the
+inserted text joins the comment), `/` fails (A) for a `w` that starts with `/`: these are exactly the
+insertion points the harness excludes.
+-/
+open RsslVerif.Model.Trivia RsslVerif.Lemmas.Trivia
+
+variable {τ : Type}
+
+/-- **trivia_insensitive.** `s` lexes; `i` is the start of the text or the end of a token after which
+    insertion is allowed; `w` is a trivia text for this lexer ((T), (A), (D)).  Then the edited text
+    lexes, and `prepare_tokens` of the edited text is `prepare_tokens` of the original text with every
+    location at or after `i` moved by `|w|` and nothing else changed: the same tokens in the same order,
+    each still pointing at its own bytes. -/
+theorem trivia_insensitive (L : Lexer τ) (hEnd : L.isWs L.endline = true)
+    (w : Bytes) (ws : List (τ × Nat)) (allowed : τ → Prop)
+    (hT : LexesAs L w ws) (hws : ∀ t ∈ ws, L.isWs t.1 = true)
+    (hA : ∀ t, allowed t → AdjacentStable L w t) (hD : DistantStable L w)
+    (s : Bytes) (i : Nat) (trailing : Bool) (toks0 toks : List (Spanned τ))
+    (h0 : lexBytes L s 0 = .ok toks0) (hb : BoundaryOK allowed 0 i toks0)
+    (h : readToEnd L s trailing = .ok toks) :
+    ∃ toks', readToEnd L (insertAt s i w) trailing = .ok toks' ∧
+      prepare L toks' = (prepare L toks).map fun tl => (tl.1, relocate i w.length tl.2) := by
+  have hins := lexBytes_insert L w ws allowed hT hA hD s 0 i toks0 h0 hb
+  simp only [Nat.sub_zero] at hins
+  have hb' : i = 0 ∨ ∃ t ∈ toks0, t.stop = i := by
+    rcases hb with hb | ⟨t, ht, hti, _⟩
+    · exact Or.inl hb
+    · exact Or.inr ⟨t, ht, hti⟩
+  obtain ⟨hsplit, hafter⟩ := lexBytes_split L s 0 i toks0 h0 hb'
+  have hsp := lexBytes_spans L s 0 toks0 h0
+  -- the old token list up to a trailing Endline
+  have hold : prepare L toks = prepare L toks0 := by
+    unfold readToEnd at h
+    rw [h0] at h
+    simp only at h
+    split at h
+    · cases h
+      exact prepare_append_ws L toks0 _ (by intro t ht; simp at ht; subst ht; exact hEnd)
+    · cases h; rfl
+  -- the new token list up to a trailing Endline
+  let new0 := beforeB i toks0 ++ spansFrom ws i ++ (afterB i toks0).map (Spanned.shift w.length)
+  have hnew : ∃ toks', readToEnd L (insertAt s i w) trailing = .ok toks' ∧ prepare L toks' = prepare L new0 := by
+    unfold readToEnd
+    rw [hins]
+    simp only
+    split
+    · exact ⟨_, rfl, prepare_append_ws L _ _ (by intro t ht; simp at ht; subst ht; exact hEnd)⟩
+    · exact ⟨_, rfl, rfl⟩
+  obtain ⟨toks', hr, hp⟩ := hnew
+  refine ⟨toks', hr, ?_⟩
+  rw [hp, hold]
+  -- compare the two prepared lists
+  have hwsnil : (spansFrom ws i).filter (fun t => !L.isWs t.tok) = [] := by
+    rw [List.filter_eq_nil_iff]
+    intro t ht
+    simp [spansFrom_tok ws i L.isWs hws t ht]
+  have hshift : ((afterB i toks0).map (Spanned.shift w.length)).filter (fun t => !L.isWs t.tok) =
+      ((afterB i toks0).filter (fun t => !L.isWs t.tok)).map (Spanned.shift w.length) := by
+    rw [List.filter_map]
+    rfl
+  conv => rhs; rw [hsplit]
+  show prepare L new0 = _
+  unfold prepare
+  simp only [new0, List.filter_append, hwsnil, hshift, List.append_nil, List.map_append, List.map_map,
+    List.map_cons, List.map_nil, relocate]
+  congr 1
+  congr 1
+  · apply List.map_congr_left
+    intro t ht
+    have htm : t ∈ beforeB i toks0 := (List.mem_filter.1 ht).1
+    have hstop : t.stop ≤ i := by simpa [beforeB] using (List.mem_filter.1 htm).2
+    have := hsp t (List.mem_filter.1 htm).1
+    simp only [Function.comp, relocate, moveOffset]
+    have hlt : ¬ i ≤ t.start := by omega
+    simp [hlt]
+  · apply List.map_congr_left
+    intro t ht
+    have htm : t ∈ afterB i toks0 := (List.mem_filter.1 ht).1
+    have := hafter t htm
+    simp [Function.comp, relocate, moveOffset, Spanned.shift, this]
+
+/-! ### a concrete lexer satisfying the hypotheses (non-vacuity) -/
+
+/-- words of letters (maximal munch), single spaces, newlines, and `<` with a one-token lookahead flag
+    like `leftanglebracket`; everything else is an error -/
+inductive ToyTok where
+  | word (n : Nat) | space | newline | langle (followedByToken : Bool)
+  deriving DecidableEq, Repr
+
+def isLetter (c : UInt8) : Bool := 97 ≤ c.toNat && c.toNat ≤ 122
+
+def toyTok (x : Bytes) : Option (ToyTok × Nat) :=
+  match x with
+  | [] => none
+  | c :: r =>
+    if c = 32 then some (.space, 1)
+    else if c = 10 then some (.newline, 1)
+    else if c = 60 then
+      some (.langle (match r with
+        | [] => false
+        | d :: _ => isLetter d || d = 60), 1)
+    else if isLetter c then some (.word (1 + (r.takeWhile isLetter).length), 1 + (r.takeWhile isLetter).length)
+    else none
+
+def toyLexer : Lexer ToyTok where
+  tok := toyTok
+  isWs := fun t => t = .space || t = .newline
+  endline := .newline
+  isEndline := fun t => t = .newline
+
+/-- the hypotheses of `trivia_insensitive` hold for the toy lexer, `w` = one space, after any token
+    other than `<` -/
+theorem toy_lexesAs : LexesAs toyLexer [32] [(.space, 1)] := by
+  intro y off
+  have ht : toyLexer.tok ([32] ++ y) = some (.space, 1) := by simp [toyLexer, toyTok]
+  rw [lexBytes_step toyLexer ([32] ++ y) off .space 1 (by simp) ht (by omega) (by simp)]
+  simp only [List.singleton_append, List.drop_succ_cons, List.drop_zero, List.length_singleton]
+  cases lexBytes toyLexer y (off + 1) <;> simp [consOk, mapOk, spansFrom]
+
+theorem takeWhile_letter_stop (r : Bytes) (rest : Bytes) (c : UInt8) (hc : isLetter c = false) :
+    ((r.takeWhile isLetter ++ c :: rest).takeWhile isLetter) = r.takeWhile isLetter := by
+  induction r with
+  | nil => simp [List.takeWhile_cons, hc]
+  | cons a r ih =>
+    by_cases ha : isLetter a
+    · simp [List.takeWhile_cons, ha, ih]
+    · simp [List.takeWhile_cons, ha, hc]
+
+theorem take_takeWhile_length (p : UInt8 → Bool) (r : Bytes) : r.take (r.takeWhile p).length = r.takeWhile p := by
+  induction r with
+  | nil => rfl
+  | cons a r ih =>
+    by_cases ha : p a
+    · simp [List.takeWhile_cons, ha, ih]
+    · simp [List.takeWhile_cons, ha]
+
+theorem toy_adjacent (t : ToyTok) (hl : ∀ b, t ≠ .langle b) : AdjacentStable toyLexer [32] t := by
+  intro x n ht hn hle
+  cases x with
+  | nil => simp [toyLexer, toyTok] at ht
+  | cons c r =>
+    simp only [toyLexer, toyTok] at ht ⊢
+    by_cases h1 : c = 32
+    · simp [h1] at ht ⊢; obtain ⟨rfl, rfl⟩ := ht; simp
+    · by_cases h2 : c = 10
+      · simp [h1, h2] at ht ⊢; obtain ⟨rfl, rfl⟩ := ht; simp
+      · by_cases h3 : c = 60
+        · simp [h1, h2, h3] at ht
+          exact absurd ht.1.symm (hl _)
+        · by_cases h4 : isLetter c
+          · simp only [h1, h2, h3, h4, if_false, if_true, Option.some.injEq, Prod.mk.injEq] at ht
+            obtain ⟨rfl, rfl⟩ := ht
+            have hs : isLetter 32 = false := by decide
+            have htake : (c :: r).take (1 + (r.takeWhile isLetter).length) = c :: r.takeWhile isLetter := by
+              rw [Nat.add_comm, List.take_succ_cons]
+              congr 1
+              exact take_takeWhile_length isLetter r
+            rw [htake]
+            simp only [List.cons_append, h1, h2, h3, h4, if_false, if_true, List.append_assoc]
+            have := takeWhile_letter_stop r ([] ++ (c :: r).drop (1 + (r.takeWhile isLetter).length)) 32 hs
+            rw [this]
+          · simp [h1, h2, h3, h4] at ht
+
+theorem takeWhile_length_of_take_eq (p : UInt8 → Bool) (r r' : Bytes) (l : Nat)
+    (hl : (r.takeWhile p).length = l) (h : r.take (l + 1) = r'.take (l + 1)) :
+    (r'.takeWhile p).length = l := by
+  induction r generalizing r' l with
+  | nil =>
+    simp at hl; subst hl
+    cases r' with
+    | nil => rfl
+    | cons b r' => simp at h
+  | cons a r ih =>
+    cases r' with
+    | nil => simp at h
+    | cons b r' =>
+      simp only [List.take_succ_cons, List.cons.injEq] at h
+      obtain ⟨rfl, h⟩ := h
+      by_cases ha : p a
+      · simp only [List.takeWhile_cons, ha, if_true, List.length_cons] at hl ⊢
+        cases l with
+        | zero => omega
+        | succ l =>
+          have := ih r' l (by omega) h
+          omega
+      · simp only [List.takeWhile_cons, ha] at hl ⊢
+        simpa using hl
+
+/-- the toy lexer reads at most one byte beyond the token -/
+theorem toyTok_prefix (x x' : Bytes) (t : ToyTok) (n : Nat) (h : toyTok x = some (t, n))
+    (hp : x.take (n + 1) = x'.take (n + 1)) : toyTok x' = some (t, n) := by
+  cases x with
+  | nil => simp [toyTok] at h
+  | cons c r =>
+    cases x' with
+    | nil => simp at hp
+    | cons c' r' =>
+      simp only [List.take_succ_cons, List.cons.injEq] at hp
+      obtain ⟨rfl, hp⟩ := hp
+      simp only [toyTok] at h ⊢
+      by_cases h1 : c = 32
+      · simpa [h1] using h
+      · by_cases h2 : c = 10
+        · simpa [h1, h2] using h
+        · by_cases h3 : c = 60
+          · subst h3
+            simp at h ⊢
+            obtain ⟨rfl, rfl⟩ := h
+            cases r <;> cases r' <;> simp_all
+          · by_cases h4 : isLetter c
+            · simp only [h1, h2, h3, h4, if_false, if_true, Option.some.injEq, Prod.mk.injEq] at h ⊢
+              obtain ⟨rfl, rfl⟩ := h
+              have := takeWhile_length_of_take_eq isLetter r r' _ rfl (by rw [Nat.add_comm]; exact hp)
+              simp [this]
+            · simp [h1, h2, h3, h4] at h
+
+theorem toy_distant (w : Bytes) : DistantStable toyLexer w := by
+  intro x t n t2 n2 j ht hn hle ht2 hn2 hj hjx
+  apply toyTok_prefix x _ t n ht
+  exact (take_insertAt_before x w j (n + 1) (by omega) hjx).symm
+
+/-- the hypotheses of `trivia_insensitive` are satisfiable: the toy lexer, one inserted space, after
+    any token except `<`; and the conclusion on a concrete text (`ab<c` with a space after `ab`) -/
+example (s : Bytes) (i : Nat) (trailing : Bool) (toks0 toks : List (Spanned ToyTok))
+    (h0 : lexBytes toyLexer s 0 = .ok toks0)
+    (hb : BoundaryOK (fun t => ∀ b, t ≠ ToyTok.langle b) 0 i toks0)
+    (h : readToEnd toyLexer s trailing = .ok toks) :
+    ∃ toks', readToEnd toyLexer (insertAt s i [32]) trailing = .ok toks' ∧
+      prepare toyLexer toks' = (prepare toyLexer toks).map fun tl => (tl.1, relocate i 1 tl.2) :=
+  trivia_insensitive toyLexer rfl [32] [(.space, 1)] _ toy_lexesAs (by simp [toyLexer])
+    (fun t ht => toy_adjacent t ht) (toy_distant [32]) s i trailing toks0 toks h0 hb h
+
+/-- adjacency after `<` is significant — the exception in the property is real: inserting a space
+    directly after `<` changes the token (`FollowedBy::Token` becomes `FollowedBy::Whitespace`) -/
+theorem angle_bracket_not_closed : ¬ AdjacentStable toyLexer [32] (.langle true) := by
+  intro h
+  have := h [60, 97] 1 (by decide) (by omega) (by decide)
+  revert this
+  decide
 
 end RsslVerif.Thm.C14
